@@ -88,4 +88,59 @@ func SubtractAmountFromPeriods
     loop 2 exitassert shape: len(dec) == n && len(dif) == n && (forall k int :: 0 <= k && k < n ==> dec[k].Length == P[k].Length && dif[k].Length == P[k].Length
             && cadd(dec[k].Amount, dif[k].Amount) == P[k].Amount && cnonneg(dec[k].Amount) && cnonneg(dif[k].Amount)
             && dif[k].Amount == cone(d, dif[k].Amount[d]))
+
+// lemmas about event ordering (same statements as in x/vesting/types; lemmas are per contract file)
+lemma LvTMono(start int, p Periods, i int, j int)
+    requires forall k int :: 0 <= k && k < len(p) ==> p[k].Length >= 0
+    requires 0 <= i && i <= j && j <= len(p)
+    ensures T(start, p, i) <= T(start, p, j)
+    induction j above i
+lemma LvFrozen(start int, p Periods, i int, j int, t int)
+    requires forall k int :: 0 <= k && k < len(p) ==> p[k].Length >= 0
+    requires 0 <= i && i < j && j <= len(p) && t < T(start, p, i+1)
+    ensures Count(start, p, j, t) == Count(start, p, i, t)
+    use LvTMono(start, p, i+1, j)
+    induction j above i+1
+lemma LvAll(start int, p Periods, i int, t int)
+    requires forall k int :: 0 <= k && k < len(p) ==> p[k].Length >= 0
+    requires 0 <= i && i <= len(p) && T(start, p, i) <= t
+    ensures Count(start, p, i, t) == i
+    use LvTMono(start, p, i-1, i)
+    induction i above 0
+
+// number of release events of (start, p) that have happened by t (none at or before the start instant)
+specfunc PastCount(start int, p Periods, t int) int = ite(t <= start, 0, Count(start, p, len(p), t))
+
+// ------------------------------------------------------------------ C11: cutting a schedule at the current time
+func ExtractUpcomingPeriods
+    let c = PastCount(startDate, periods, readTime)
+    requires lens: forall k int :: 0 <= k && k < len(periods) ==> periods[k].Length >= 0
+    requires end: endDate >= T(startDate, periods, len(periods))
+    ensures upcoming: len(result) == len(periods) - c && (forall k int :: 0 <= k && k < len(result) ==> result[k] == periods[c + k])
+
+func ExtractPastPeriods
+    let c = PastCount(startDate, periods, readTime)
+    requires lens: forall k int :: 0 <= k && k < len(periods) ==> periods[k].Length >= 0
+    requires end: endDate >= T(startDate, periods, len(periods))
+    ensures past: len(result) == c && (forall k int :: 0 <= k && k < c ==> result[k] == periods[k])
+
+func ReplacePeriodsTail
+    let lp = len(periods)
+    let lr = len(replacement)
+    ensures whole: lr >= lp ==> len(result) == lr && (forall k int :: 0 <= k && k < lr ==> result[k] == replacement[k])
+    ensures tail: lr < lp ==> len(result) == lp && (forall k int :: 0 <= k && k < lp - lr ==> result[k] == periods[k])
+            && (forall k int :: 0 <= k && k < lr ==> result[lp - lr + k] == replacement[k])
+
+// time elapsed inside the period that is running at currentTime (0 before the start and after the end)
+func CurrentPeriodShift
+    let c = Count(startTime, periods, len(periods), currentTime)
+    requires lens: forall k int :: 0 <= k && k < len(periods) ==> periods[k].Length >= 0
+    ensures before: startTime >= currentTime ==> result == 0
+    ensures running: startTime < currentTime && c < len(periods) ==> result == currentTime - T(startTime, periods, c)
+    ensures after: startTime < currentTime && c >= len(periods) ==> result == 0
+    ensures nonneg: result >= 0
+    loop 1 invariant idx: 0 <= #i && #i <= len(periods)
+    loop 1 invariant time: elapsedTime == T(startTime, periods, #i) && elapsedTime <= currentTime && Count(startTime, periods, #i, currentTime) == #i
+    loop 1 exit use LvFrozen(startTime, periods, #i, len(periods), currentTime)
+    use return LvAll(startTime, periods, len(periods), currentTime)
 @*/
